@@ -32,25 +32,27 @@ theorem mut_ok {h0 : Heap} {val : Theory} {r : Nat × Heap} (b : Bool) (f : Theo
     RuleOK h0 (f val) b (r.1, r.2.mutate r.1 f) :=
   ruleOK_of_post b (mutate_post h0 val r.1 r.2 f h)
 
-theorem div_ok (p : Payload) (args : List Term) (as : List Nat) (h0 : Heap) (hv : ∀ a ∈ as, a < h0.next) :
-    RuleOK h0 (rule .div p args (as.map h0.cells)) (freshShape .div p as) (ruleH .div p args as h0) := by
-  obtain ⟨hb, hfresh⟩ := foldBase_post h0 as hv
-  have hdef : RuleOK h0 (foldCombine (as.map h0.cells)) (freshShape .div p as) (foldBaseO h0 as) :=
-    ⟨hb, fun hf => hfresh (by simpa [freshShape] using hf)⟩
-  simp only [ruleH, rule]
+theorem divCore_post (args : List Term) (as : List Nat) (h0 : Heap) (hv : ∀ a ∈ as, a < h0.next) :
+    PostV h0 (divCore args (as.map h0.cells)) (divCoreO h0 args as) := by
+  obtain ⟨hb, _⟩ := foldBase_post h0 as hv
+  simp only [divCore, divCoreO]
   rcases args with _ | ⟨x, _ | ⟨d, _ | ⟨e, r2⟩⟩⟩ <;> rcases as with _ | ⟨a, _ | ⟨td, _ | ⟨c, rest⟩⟩⟩ <;>
-    simp only [List.map] <;> try exact hdef
-  -- the two-argument case
+    simp only [List.map] <;> try exact hb
   have htd : td < h0.next := hv td (by simp)
   by_cases h1 : hasFreeVars d = true
-  · simp only [h1, if_true]; exact ruleOK_of_post _ (new_of h0 _ _ hb (fun t => t.set_linear false))
+  · simp only [h1, if_true]; exact (new_of h0 _ _ hb (fun t => t.set_linear false)).1
   · simp only [h1, if_false, Bool.false_eq_true]
     by_cases h2 : isZero d = true
-    · simp only [h2, if_true]; exact ruleOK_of_post _ (new_of h0 _ _ hb (fun t => t.set_linear false))
+    · simp only [h2, if_true]; exact (new_of h0 _ _ hb (fun t => t.set_linear false)).1
     · simp only [h2, if_false, Bool.false_eq_true]
       have := combine_post h0 (foldBaseO h0 [a, td]).2 (foldBaseO h0 [a, td]).1 td hb.1
       rw [hb.2.2, hb.1.2 td htd] at this
-      exact ruleOK_of_post _ this
+      exact this.1
+
+theorem div_ok (p : Payload) (args : List Term) (as : List Nat) (h0 : Heap) (hv : ∀ a ∈ as, a < h0.next) :
+    RuleOK h0 (rule .div p args (as.map h0.cells)) (freshShape .div p as) (ruleH .div p args as h0) := by
+  simp only [ruleH, rule]
+  exact ruleOK_of_post _ (new_of h0 _ _ (divCore_post args as h0 hv) (fun t => t.set_difference_logic false))
 
 theorem ruleH_spec (op : Op) (p : Payload) (args : List Term) (as : List Nat) (h0 : Heap)
     (hv : ∀ a ∈ as, a < h0.next) :
@@ -95,9 +97,13 @@ theorem ruleH_spec (op : Op) (p : Payload) (args : List Term) (as : List Nat) (h
         (fun t => t.set_difference_logic false))
     · simp only [hc, if_false]
       exact ruleOK_of_post _ (new_of h0 _ _ hb (fun t => t.set_difference_logic false))
-  case toReal | pow | intToStr => rw [cellHd_eq]; exact ruleOK_of_post _ (new_post h0 h0 _ (Ext.refl _))
+  case toReal | intToStr => rw [cellHd_eq]; exact ruleOK_of_post _ (new_post h0 h0 _ (Ext.refl _))
+  case pow =>
+    rw [cellHd_eq]
+    exact ruleOK_of_post _ (new_of h0 _ _ (new_post h0 h0 _ (Ext.refl _)).1 (fun t => t.set_difference_logic false))
   case bvToNatural => rw [cellHd_eq]; exact mut_ok _ withInt (new_post h0 h0 _ (Ext.refl _))
-  case strLength | strIndexOf | strToInt => exact mut_ok _ withInt (walkCombine_post h0 as hv)
+  case strLength | strIndexOf | strToInt =>
+    exact ruleOK_of_post _ (combine_new_post h0 _ _ (walkCombine_post h0 as hv).1 intTheory)
   case arrayValue =>
     have hb := walkCombine_post h0 as hv
     cases p with
